@@ -28,6 +28,22 @@ checks = {
  "C07": dict(cat="model_checking", ref="§5, §8 C07", technique="symbolic execution of the generated parser with 64-bit symbolic semantic values; attribute-evaluation oracle as a term",
    text="Actions $$ = k0 + sum ci*$i with distinct constants and two union fields; on each accepting path the returned value must equal the bottom-up evaluation over the derivation tree as an SMT term equality for all int64 token values.",
    note=G_NOTE),
+
+ "C04": dict(cat="model_checking", ref="§8 C04", technique="symbolic execution of CheckAndResolveConflict on one two-candidate cell (all precedence/associativity/order combinations) + symbolic execution of generated operator-grammar parsers against a precedence-climbing reference",
+   text="(U) The real conflict-resolution code runs on a symbolic cell: candidate kinds, order, precedence levels and associativities are solver variables and the statement's resolution table is asserted. (G) Parsers emitted for operator grammars are explored over N token codes and must agree with a precedence-climbing reference on verdict, value term and error position.",
+   note=G_NOTE + " Representation invariant assumed for U: one associativity per precedence level; cells with three or more candidates and reduce/reduce between two rules with precedence are outside the claim."),
+ "C08": dict(cat="model_checking", ref="§8 C08", technique="symbolic execution of the four generated Go variants inside one harness on the same symbolic input; numbering-free outcome comparison",
+   text="go, go -u, go -o and go -o -u parsers of one grammar, each generated through the real entry point, run on the same symbolic abstract input (terminal indices incl. end of input and a non-token; symbolic values); verdict, request count, reduction log and value term must coincide on every path.",
+   note=G_NOTE + " TypeScript is not compared (outside the bound)."),
+ "C11": dict(cat="model_checking", ref="§8 C11", technique="symbolic execution of the emitted translate()/TraceTranslate()/Action() for an unconstrained integer code",
+   text="For every corpus grammar the emitted translate(c) is executed for an unconstrained int64 c: each declared code maps to its own symbol, -1 to the end marker, everything else to the error symbol, which is an error action in every state; the emitted token constants are pairwise distinct and differ from -1.",
+   note=G_NOTE + " Covers the declaration mixes present in the corpus (explicit numbers, literals, automatic numbers, %left-only and rule-only tokens)."),
+ "C15": dict(cat="model_checking", ref="§8 C15", technique="symbolic execution of parse histories in the generated parser (two symbolic inputs), outcome equality decided by Z3",
+   text="Histories [y, x, ParserInit, y] (global mode) and fresh vs. used-and-reinitialised vs. second context (object mode) with both inputs symbolic; the outcome of y must not depend on x.",
+   note=G_NOTE + " Real concurrency is not modelled; interleaving is at the granularity of whole parses."),
+ "C17": dict(cat="model_checking", ref="§8 C17", technique="symbolic execution of the generated parser with IsTrace on; printed records parsed and checked against the executed actions and the emitted table",
+   text="With IsTrace on, every printed line must be a push or a reduction in execution order, carry the text of the rule actually reduced and the triggering lookahead, and every push must be a transition of the table in the same file; checked on all paths over N symbolic token codes.",
+   note=G_NOTE + " fmt.Printf is modelled by an output sink (formatting done natively on concrete operands)."),
 }
 
 na = {
